@@ -6,6 +6,7 @@ Two case kinds:
           O2JToQua from small source maps), snapshotted before writing -> w1 = write, r1 = read(w1), w2 = r1.write()
 All values are float-exact (ints, dyadic fractions), so model and implementation must agree exactly."""
 import copy
+import os
 import math
 from fractions import Fraction as Fr
 
@@ -22,9 +23,12 @@ PROPS_MODULE = "Props.C06"
 RULE = ("seeded generator of .qua documents (0..6 notes over lanes 1..10, hits only / holds only / empty sections, StartTime / "
         "Lane / KeySounds / Bpm / Multiplier omitted in some or in all records, 0..3 timing points and scroll velocities, "
         "random subsets of the 21 metadata keys with strings that need YAML quoting, block and flow style, str and line-list "
-        "input) and of in-memory charts (lists built from item objects or from DataFrames with shuffled columns, non-default "
+        "input; every fourth case goes through the file-level API in a tempfile.TemporaryDirectory: the text is put on disk "
+        "and read with QuaMap.read_file(path), every document is written with QuaMap.write_file(path) and read back from "
+        "disk, the second generation reads that very file) and of in-memory charts (lists built from item objects or from DataFrames with shuffled columns, non-default "
         "row labels, unsorted rows, fractional and negative times, an extra index column; and the outputs of OsuToQua, "
-        "SMToQua, BMSToQua, O2JToQua on small source maps built from objects); each case runs read/write/read/write "
+        "SMToQua, BMSToQua, O2JToQua on small source maps built from objects; every fourth chart case likewise through "
+        "write_file / read_file); each case runs read/write/read/write "
         "(two generations); non-trivial = at least one note, timing point or scroll velocity; distinct by hash of the "
         "canonical JSON of the input; a separate unclaimed stream (foreign note keys, float times, missing sections, "
         "non-string Tags) is checked for correspondence only")
@@ -344,25 +348,31 @@ def generate(rng, tier):
         doc = _gen_doc(rng)
         flow = rng.choice([False, False, None, True])
         text = yaml.safe_dump(doc, sort_keys=False, allow_unicode=rng.random() < 0.7, default_flow_style=flow)
-        cases.append({"kind": "doc", "claim": True, "text": text, "lines": rng.random() < 0.3, "src": tj(doc)})
+        cases.append({"kind": "doc", "claim": True, "text": text, "lines": rng.random() < 0.3, "src": tj(doc),
+                      "io": "file" if i % 4 == 1 else "str"})
     for i in range(n // 6):
         doc = _gen_loose_doc(rng)
         text = yaml.safe_dump(doc, sort_keys=False, allow_unicode=True)
-        cases.append({"kind": "doc", "claim": False, "text": text, "lines": False, "src": tj(doc)})
+        cases.append({"kind": "doc", "claim": False, "text": text, "lines": False, "src": tj(doc),
+                      "io": "file" if i % 4 == 1 else "str"})
     # a hand-written text (comments, flow sequences, quoted scalars), as an editor or the game would leave it
-    cases.append({"kind": "doc", "claim": True, "lines": True, "src": None, "text":
+    hand = ({"kind": "doc", "claim": True, "lines": True, "src": None, "text":
                   "AudioFile: audio.mp3   # comment\nMode: Keys7\nTitle: 'yes'\nArtist: \"a: b\"\nTags: 'x  y'\n"
                   "InitialScrollVelocity: 1.0\nEditorLayers: []\nTimingPoints:\n- StartTime: -341\n  Bpm: 175\n"
                   "SliderVelocities:\n- StartTime: 344\n  Multiplier: 1.5\n- Multiplier: 0.5\nHitObjects:\n"
                   "- StartTime: 1030\n  Lane: 7\n  KeySounds: []\n- Lane: 1\n  KeySounds: []\n"
                   "- StartTime: 2000\n  EndTime: 2400\n  Lane: 3\n  KeySounds: [a.wav]\n"})
+    cases.append(dict(hand, io="str"))
+    cases.append(dict(hand, io="file", lines=False))   # the same text through QuaMap.read_file / write_file
     for i in range(n // 2):
         rc = _gen_chart(rng)
         # an `index` column is only reachable through TimedList.empty() of the unrepaired tree (converter outputs
         # below are claimed whatever they contain); a synthetic one is checked for correspondence only
-        cases.append({"kind": "chart", "claim": not rc.get("extra_index"), "origin": "native", "recipe": rc})
+        cases.append({"kind": "chart", "claim": not rc.get("extra_index"), "origin": "native", "recipe": rc,
+                      "io": "file" if i % 4 == 1 else "str"})
     for i in range(n // 3):
-        cases.append({"kind": "chart", "claim": True, "origin": "conv", "recipe": _gen_conv(rng)})
+        cases.append({"kind": "chart", "claim": True, "origin": "conv", "recipe": _gen_conv(rng),
+                      "io": "file" if i % 4 == 1 else "str"})
     return cases
 
 
@@ -388,8 +398,9 @@ def _install_capture():
 
         @staticmethod
         def dump(data, *a, **k):
-            _captured.append(copy.deepcopy(data))
-            return real_yaml.dump(data, *a, **k)
+            txt = real_yaml.dump(data, *a, **k)
+            _captured.append((copy.deepcopy(data), txt))
+            return txt
     QM.yaml = Proxy()
 
 
@@ -412,30 +423,54 @@ def _same_tree(a, b):
     return a == b
 
 
-def _write(m, out, tag):
-    """m.write() -> (text, tree); tests the PyYAML hypothesis on the written document"""
+def _write(m, out, tag, tmp=None):
+    """m.write() -> (text, tree); tests the PyYAML hypothesis on the written document.
+    With a directory `tmp` the document goes through QuaMap.write_file(path) and is read back from disk (bytes, utf-8)."""
     import yaml
     del _captured[:]
     try:
-        text = m.write()
+        if tmp is None:
+            text = m.write()
+        else:
+            path = os.path.join(tmp, tag + ".qua")
+            ret = m.write_file(path)
+            if ret is not None:
+                raise RuntimeError("write_file returned a value")
+            with open(path, "rb") as f:
+                text = f.read().decode("utf-8")
+            out["file_io"] = out.get("file_io", 0) + 1
     except EXPECTED as e:
         out["exc_" + tag] = type(e).__name__ + ": " + str(e)[:80]
         return None, None
     except yaml.YAMLError as e:
         out["exc_" + tag] = type(e).__name__
         return None, None
-    tree = tj(yaml.safe_load(text))
     if _captured:
-        want = tj(_captured[-1])
-        if not _same_tree(want, tree):
+        # the PyYAML hypothesis is about what yaml.dump returned, whatever reached the caller or the disk afterwards
+        data, dumped = _captured[-1]
+        if not isinstance(dumped, str) or not _same_tree(tj(data), tj(yaml.safe_load(dumped))):
             raise RuntimeError("PyYAML oracle hypothesis failed on a written document: safe_load(dump(d)) != d")
         out["yaml_rt"] = out.get("yaml_rt", 0) + 1
+    try:
+        tree = tj(yaml.safe_load(text))
+    except (yaml.YAMLError, ValueError) as e:
+        # what reached the caller / the disk is not a document any more: the implementation's output is "nothing"
+        out["exc_" + tag] = "unloadable written text: " + type(e).__name__
+        return None, None
     return text, tree
 
 
-def _read(text, out, tag, lines=False):
+def _read(text, out, tag, lines=False, tmp=None):
+    """QuaMap.read(text or lines); with a directory `tmp` the text is put on disk (bytes, utf-8) and QuaMap.read_file(path)
+    reads it (for a document written by write_file this is the very file: same bytes)"""
     from reamber.quaver.QuaMap import QuaMap
     try:
+        if tmp is not None:
+            path = os.path.join(tmp, tag + "_in.qua")
+            with open(path, "wb") as f:
+                f.write(text.encode("utf-8"))
+            out["file_io"] = out.get("file_io", 0) + 1
+            return QuaMap.read_file(path)
         return QuaMap.read(text.split("\n")[:-1] if (lines and text.endswith("\n")) else text)
     except EXPECTED as e:
         out["exc_" + tag] = type(e).__name__ + ": " + str(e)[:80]
@@ -552,6 +587,14 @@ def _build_conv(rc):
 
 
 def execute(case):
+    if case.get("io") == "file":
+        import tempfile
+        with tempfile.TemporaryDirectory() as tmp:
+            return _execute(case, tmp)
+    return _execute(case, None)
+
+
+def _execute(case, tmp):
     import yaml
     _install_capture()
     out = {}
@@ -564,24 +607,24 @@ def execute(case):
                 raise RuntimeError("PyYAML oracle hypothesis failed on a generated document: safe_load(dump(d)) != d")
             out["yaml_rt"] = 1
         out["r"] = out["w1"] = out["w2"] = None
-        m = _read(text, out, "r", case.get("lines", False))
+        m = _read(text, out, "r", case.get("lines", False), tmp)
         if m is not None:
             out["r"] = _snap_chart(m)
-            t1, out["w1"] = _write(m, out, "w1")
+            t1, out["w1"] = _write(m, out, "w1", tmp)
             if t1 is not None:
-                m2 = _read(t1, out, "r2")
+                m2 = _read(t1, out, "r2", False, tmp)
                 if m2 is not None:
-                    _, out["w2"] = _write(m2, out, "w2")
+                    _, out["w2"] = _write(m2, out, "w2", tmp)
         return out
     m = _build_native(case["recipe"]) if case["origin"] == "native" else _build_conv(case["recipe"])
     out["c"] = _snap_chart(m)
     out["w1"] = out["r1"] = out["w2"] = None
-    t1, out["w1"] = _write(m, out, "w1")
+    t1, out["w1"] = _write(m, out, "w1", tmp)
     if t1 is not None:
-        m1 = _read(t1, out, "r1")
+        m1 = _read(t1, out, "r1", False, tmp)
         if m1 is not None:
             out["r1"] = _snap_chart(m1)
-            _, out["w2"] = _write(m1, out, "w2")
+            _, out["w2"] = _write(m1, out, "w2", tmp)
     return out
 
 
@@ -1088,6 +1131,8 @@ def bucket(case, out):
         if out.get("w1") is None:
             k += "/write-raised"
     k += f"/yaml-oracle-ok={out.get('yaml_rt', 0)}"
+    if case.get("io") == "file":
+        k += f"/read_file+write_file:{out.get('file_io', 0)}"
     return k
 
 
@@ -1131,7 +1176,7 @@ def _shrink_all(case):
 
         def mk(d):
             return {"kind": "doc", "claim": case.get("claim", True), "lines": False, "src": tj(d),
-                    "text": yaml.safe_dump(d, sort_keys=False, allow_unicode=True)}
+                    "io": case.get("io", "str"), "text": yaml.safe_dump(d, sort_keys=False, allow_unicode=True)}
         for k in list(doc):
             if k in ("HitObjects", "TimingPoints", "SliderVelocities"):
                 if isinstance(doc[k], list):
